@@ -404,7 +404,7 @@ pub fn build(tier: &str) -> SimCheck {
         scenarios,
         oracle: Box::new(oracle),
         bound: if thorough { 3 } else { 2 },
-        limits: Limits { max_wall_s: if thorough { 7200.0 } else { 55.0 }, ..Default::default() },
+        limits: Limits { max_wall_s: if thorough { 7200.0 } else { 150.0 }, ..Default::default() },
         rule: "scenario = pool_size {1,2} x global / per-pool PAUSE x client programs (2-3 clients of the paused pool with multi-statement and autocommit transactions, extended-protocol transactions, lone Sync batches (answered by the pooler itself) between transactions, a transaction that fails and is rolled back, one client of another pool) x admin sequence (P;R / P;R;P;R / R;P;R / P;P;R; also P;RELOAD;R where the reload replaces or removes the paused pool, and RELOAD;P;R with a client queued on the replaced pool), plus the scripted 'statement already queued for the only server when PAUSE arrives' scenario; all schedules with <= bound deviations: PAUSE and RESUME land while clients are idle, arriving, mid-transaction, between transactions or queued for a connection".into(),
         assumptions: vec!["paused interval = from the PAUSE reply being read by the admin client to the RESUME being sent".into(), "interleavings below await-point granularity are decided by the loom part".into()],
     }
